@@ -14,18 +14,20 @@ import (
 )
 
 func regSM() {
-	own := func(name string, mk func() pack.Pack, deep func(p pack.Pack)) {
-		strict := func(in *gio.DataInputX) {
+	own := func(name string, mk func() pack.Pack, deep func(p pack.Pack) interface{}) {
+		strict := func(in *gio.DataInputX) interface{} {
 			in.ReadShort()
-			mk().Read(in)
+			p := mk()
+			p.Read(in)
+			return p
 		}
-		var dp func(in *gio.DataInputX)
+		var dp func(in *gio.DataInputX) interface{}
 		if deep != nil {
-			dp = func(in *gio.DataInputX) {
+			dp = func(in *gio.DataInputX) interface{} {
 				in.ReadShort()
 				p := mk()
 				p.Read(in)
-				deep(p)
+				return []interface{}{p, deep(p)}
 			}
 		}
 		reg("Read/"+name, strict, dp)
@@ -36,10 +38,10 @@ func regSM() {
 	own("SMProcPerfPack", func() pack.Pack { return pack.NewSMProcPerfPack() }, nil)
 	own("SMTCPPerfPack", func() pack.Pack { return pack.NewSMTCPPerfPack() }, nil)
 	own("SMLogEventPack", func() pack.Pack { return pack.NewSMLogEventPack() }, nil)
-	own("SMDownCheckPack", func() pack.Pack { return pack.NewSMDownCheckPack() }, func(p pack.Pack) { p.(*pack.SMDownCheckPack).GetRecords() })
+	own("SMDownCheckPack", func() pack.Pack { return pack.NewSMDownCheckPack() }, func(p pack.Pack) interface{} { return p.(*pack.SMDownCheckPack).GetRecords() })
 	own("SMPingPack", func() pack.Pack { return pack.NewSMPingPack() }, nil)
 	own("SMExtension", func() pack.Pack { return pack.NewSMExtensionPack() }, nil)
-	own("StatTransactionPack1", func() pack.Pack { return pack.NewStatTransactionPack1() }, func(p pack.Pack) { p.(*pack.StatTransactionPack1).GetRecords() })
+	own("StatTransactionPack1", func() pack.Pack { return pack.NewStatTransactionPack1() }, func(p pack.Pack) interface{} { return p.(*pack.StatTransactionPack1).GetRecords() })
 }
 
 func floats(o *W, r *vlib.Rand, n int) {
